@@ -14,13 +14,16 @@ impl AnyErr {
 pub struct ScanFile { _p: u8 }
 impl ScanFile {
     pub uninterp spec fn size_spec(&self) -> u64;
+    // the bytes of the file (any sequence of length size_spec: the file is ADVERSARIAL, but a read
+    // returns the bytes AT THE OFFSET IT WAS ASKED FOR)
+    pub uninterp spec fn content(&self) -> Seq<u8>;
     #[verifier::external_body]
     pub fn size(&self) -> (r: u64) ensures r == self.size_spec() { unimplemented!() }
     // read_exact_at_allocate(n, off).map_err(into_bincode_if_unexpected_eof)
     #[verifier::external_body]
     pub fn read_exact_at_allocate_eof(&self, size: usize, offset: u64) -> (r: Result<BytesMut, AnyErr>)
         ensures
-            r.is_ok() ==> r->Ok_0@.len() == size && offset + size <= self.size_spec(),
+            r.is_ok() ==> r->Ok_0@.len() == size && offset + size <= self.size_spec() && r->Ok_0@ == self.content().subrange(offset as int, offset + size), self.content().len() == self.size_spec(),
             // a short file surfaces as a Bincode-class error (IntoBincodeIfUnexpectedEof, Kani: check_eof_class)
             r.is_err() && offset + size > self.size_spec() ==> r->Err_0 == AnyErr::Pearl(Error { kind: ErrorKind::Bincode(()) }),
             r.is_err() ==> r->Err_0 == AnyErr::Pearl(Error { kind: ErrorKind::Bincode(()) }) || (r->Err_0 is Io && r->Err_0->Io_0 != IoKind::UnexpectedEof),
@@ -29,21 +32,21 @@ impl ScanFile {
     #[verifier::external_body]
     pub fn read_exact_at_allocate(&self, size: usize, offset: u64) -> (r: Result<BytesMut, AnyErr>)
         ensures
-            r.is_ok() ==> r->Ok_0@.len() == size && offset + size <= self.size_spec(),
+            r.is_ok() ==> r->Ok_0@.len() == size && offset + size <= self.size_spec() && r->Ok_0@ == self.content().subrange(offset as int, offset + size), self.content().len() == self.size_spec(),
             r.is_err() && offset + size > self.size_spec() ==> r->Err_0 == AnyErr::Io(IoKind::UnexpectedEof),
             r.is_err() ==> r->Err_0 is Io,
     { unimplemented!() }
     #[verifier::external_body]
     pub fn read_exact_at(&self, buf: BytesMut, offset: u64) -> (r: Result<BytesMut, AnyErr>)
         ensures
-            r.is_ok() ==> r->Ok_0@.len() == buf@.len() && offset + buf@.len() <= self.size_spec(),
+            r.is_ok() ==> r->Ok_0@.len() == buf@.len() && offset + buf@.len() <= self.size_spec() && r->Ok_0@ == self.content().subrange(offset as int, offset + buf@.len()), self.content().len() == self.size_spec(),
             r.is_err() && offset + buf@.len() > self.size_spec() ==> r->Err_0 == AnyErr::Io(IoKind::UnexpectedEof),
             r.is_err() ==> r->Err_0 is Io,
     { unimplemented!() }
     #[verifier::external_body]
     pub fn read_exact_at_eof(&self, buf: BytesMut, offset: u64) -> (r: Result<BytesMut, AnyErr>)
         ensures
-            r.is_ok() ==> r->Ok_0@.len() == buf@.len() && offset + buf@.len() <= self.size_spec(),
+            r.is_ok() ==> r->Ok_0@.len() == buf@.len() && offset + buf@.len() <= self.size_spec() && r->Ok_0@ == self.content().subrange(offset as int, offset + buf@.len()), self.content().len() == self.size_spec(),
             r.is_err() && offset + buf@.len() > self.size_spec() ==> r->Err_0 == AnyErr::Pearl(Error { kind: ErrorKind::Bincode(()) }),
             r.is_err() ==> r->Err_0 == AnyErr::Pearl(Error { kind: ErrorKind::Bincode(()) }) || (r->Err_0 is Io && r->Err_0->Io_0 != IoKind::UnexpectedEof),
     { unimplemented!() }
@@ -138,3 +141,32 @@ pub fn save_corrupted_blob(p: &PathS, dir: ()) -> (r: Result<(), AnyErr>) { unim
 pub open spec fn opt_ge(a: Option<usize>, b: Option<usize>) -> bool {
     match (a, b) { (_, None) => true, (Some(x), Some(y)) => x >= y, (None, Some(_)) => false }
 }
+
+// ---- RawRecords::start: the first record's magic byte and key length, read from the blob ----
+// bincode::serialized_size(&0usize) / (&RECORD_MAGIC_BYTE): 8 (fixed-int; layout: Kani layout harnesses)
+#[verifier::external_body]
+pub fn bincode_size_of_u64() -> (r: Result<u64, AnyErr>) ensures r.is_ok() ==> r->Ok_0 == 8, r.is_err() ==> r->Err_0 is Other { unimplemented!() }
+// value of 8 little-endian bytes
+pub uninterp spec fn le_u64(b: Seq<u8>) -> u64;
+// bincode::deserialize::<u64 / usize>(buf).map_err(Error::from): too few bytes => Bincode-class error
+#[verifier::external_body]
+pub fn deser_u64_slice(b: &[u8]) -> (r: Result<u64, AnyErr>)
+    ensures r.is_ok() ==> b@.len() >= 8 && r->Ok_0 == le_u64(b@.subrange(0, 8)),
+        r.is_err() ==> r->Err_0 == AnyErr::Pearl(Error { kind: ErrorKind::Bincode(()) })
+{ unimplemented!() }
+#[verifier::external_body]
+pub fn deser_usize_slice(b: &[u8]) -> (r: Result<usize, AnyErr>)
+    ensures r.is_ok() ==> b@.len() >= 8 && r->Ok_0 == le_u64(b@.subrange(0, 8)),
+        r.is_err() ==> r->Err_0 == AnyErr::Pearl(Error { kind: ErrorKind::Bincode(()) })
+{ unimplemented!() }
+// BytesMut::split_at (Deref to [u8]): PANICS if mid > len
+#[verifier::external_body]
+pub fn bytes_split_at(b: &BytesMut, mid: usize) -> (r: (&[u8], &[u8]))
+    requires mid <= b@.len()
+    ensures r.0@ == b@.subrange(0, mid as int), r.1@ == b@.subrange(mid as int, b@.len() as int)
+{ unimplemented!() }
+// RecordHeader::default().serialized_size(): the header with an empty key (layout harness: 8+8+8+8+8+1+4+4 ... a constant)
+pub uninterp spec fn default_header_len() -> u64;
+#[verifier::external_body]
+pub fn default_header_size() -> (r: u64) ensures r == default_header_len(), 0 < r < 0x100 { unimplemented!() }
+pub const RECORD_MAGIC_BYTE: u64 = 0xacdc_bcde;
